@@ -67,6 +67,19 @@ CLAIMED = {
         technique="symbolic execution of the real Python code on IEEE-754 proxies with a division-by-constant cut "
                   "(QF_FP compare-only, cvc5) + symbolic integers forked by z3",
         design="3.16"),
+    "C17": dict(
+        text="Bit-precise (cvc5): for every interval in (0,2^20] the first sample is at exactly 0 / exactly the "
+             "interval, one step of the real sampling and dumping clocks from any normalised state adds exactly one "
+             "rounding of (remainder + interval) and continues from the returned time, the end-of-run time is exactly "
+             "the configured double. Rounding model (z3): drift per step <= 2^-53(1+interval). Ideal reals (z3): "
+             "send_out_state of the sampling and end-of-run handlers stamps every moving unit with the event time "
+             "and moves it along its trajectory, resting units untouched.",
+        note="The k-step drift bound follows by induction from the per-step obligations (argument stated in the "
+             "evidence). The number of samples in a run and the mediator's extract-after-insert order are run-level "
+             "sentences decided only when the bounded-run part is listed in the evidence; otherwise outside.",
+        technique="symbolic execution of the real handlers on IEEE-754 proxies (QF_FP, cvc5, range-split queries), "
+                  "on rounding-model reals and on ideal reals (z3)",
+        design="3.17"),
 }
 
 NOT_APPLICABLE = {
